@@ -120,7 +120,7 @@ class QueryLeg(Leg):
     def stats(self, case, obs, acc):
         if obs is None:
             return
-        acc["queries"] = acc.get("queries", 0) + len(case["queries"])
+        acc["queries"] = acc.get("queries", 0) + len(case.get("queries", obs["answers"]))
         for a in obs["answers"]:
             k = a[0] if a[0] != "raise" else "raise:" + a[1]
             acc[k] = acc.get(k, 0) + 1
